@@ -24,6 +24,8 @@ namespace {
         uint64_t pay = 0;
         Val() {}
         Val( int64_t u, int64_t p ) : uid( u ), prio( p ), pay( mix64( uint64_t( u ) * 31 + uint64_t( p ))) {}
+        Val( Val const& o ) { payload_copy( reinterpret_cast<uint64_t*>( this ), reinterpret_cast<uint64_t const*>( &o ), 3 ); }
+        Val& operator=( Val const& o ) { payload_copy( reinterpret_cast<uint64_t*>( this ), reinterpret_cast<uint64_t const*>( &o ), 3 ); return *this; }
         bool good() const { return pay == mix64( uint64_t( uid ) * 31 + uint64_t( prio )); }
         bool operator<( Val const& o ) const { return prio < o.prio; }
     };
